@@ -13,9 +13,10 @@ from .loader import Program
 from .report import AnalysisError, Report
 
 
-def _run_view(prop: str, tier: str, prog: Program, seed: int):
+def _run_view(prop: str, tier: str, prog: Program, seed: int, edits=None, line_maps=None):
     """One pass of the property's rules over one view of the program.  Returns (code, report); 2 = undecided."""
     rep = Report(prop, tier, seed, quiet=True)
+    rep.edits = edits
     mod = importlib.import_module(f"optyx_sa.rules.{prop.lower()}")
     rep.saw("modules", sorted(m.rel for m in prog.modules.values()))
     rep.analysed["source_digest"] = [prog.digest()]
@@ -23,6 +24,14 @@ def _run_view(prop: str, tier: str, prog: Program, seed: int):
         mod.check(prog, rep)
     except AnalysisError as e:
         rep.undecided(str(e))
+    if line_maps:
+        # normalised view: give obligations their real source positions back before they are scoped / reported
+        for o in rep.obs:
+            if o.loc and ":" in o.loc:
+                rel, _, ln = o.loc.rpartition(":")
+                mp = line_maps.get(rel)
+                if mp and ln.isdigit() and int(ln) in mp:
+                    o.loc = f"{rel}:{mp[int(ln)]}"
     try:
         code = rep.finish(write=False)
     except AnalysisError:
@@ -33,16 +42,24 @@ def _run_view(prop: str, tier: str, prog: Program, seed: int):
 def run_property(prop: str, tier: str, program: Program | None = None, write: bool = True, quiet: bool = False):
     """Decide the property on the program as written; if that view does not pass, also on the normalised view
     (helpers introduced since the confirmed baseline inlined, see normalise.py).  The two views are the same program,
-    so a pass on either is a pass.  If the view as written is undecided and the normalised view violates a rule, that
-    violation is reported (marked as found on the normalised view); a violation on the view as written always stands
-    unless the normalised view passes."""
+    so a pass on either is a pass; otherwise the verdict of the view as written stands.  The normalised view is only used
+    to discharge, never to accuse: on the second, unseen batch of behaviour-preserving twins it produced three
+    violations of its own (machine-made shapes that a rule misread), so its failures are not evidence."""
     seed = int(os.environ.get("VERIF_SEED", "0") or 0)
     prog = program or Program()
+    try:
+        from .normalise import edit_sizes
+
+        edits = edit_sizes(prog)
+        if not any(chg for chg, _t, _s in edits.values() if chg is None or chg):
+            edits = None        # nothing differs from the baseline
+    except Exception:
+        edits = None
     if os.environ.get("OPTYX_VIEW_ONLY"):       # debugging aid: decide on the normalised view alone
         from .normalise import inlined_view
 
         prog = inlined_view(prog) or prog
-    code, rep = _run_view(prop, tier, prog, seed)
+    code, rep = _run_view(prop, tier, prog, seed, edits)
     if os.environ.get("OPTYX_SHOW_VIEWS"):
         print(f"-- view as written: exit {code}")
         for ln in getattr(rep, "result_lines", []):
@@ -56,7 +73,7 @@ def run_property(prop: str, tier: str, program: Program | None = None, write: bo
             view = None
             rep.note(f"normalised view not built: {type(e).__name__}: {e}")
         if view is not None:
-            code1, rep1 = _run_view(prop, tier, view, seed)
+            code1, rep1 = _run_view(prop, tier, view, seed, edits, getattr(view, "line_maps", None))
             rep1.saw("normalised view: helper calls inlined", view.inlined)
             if os.environ.get("OPTYX_SHOW_VIEWS"):
                 print(f"-- normalised view: exit {code1}")
@@ -65,20 +82,6 @@ def run_property(prop: str, tier: str, program: Program | None = None, write: bo
             first = [ln for ln in getattr(rep, "result_lines", []) if not ln.startswith("VIOLATION")][:6]
             if code1 == 0:
                 rep1.note("verdict reached on the normalised view (new helpers inlined); the view as written gave: " + " | ".join(first))
-                code, rep = code1, rep1
-            elif code == 2 and code1 == 1:
-                # the view as written cannot be decided (e.g. the code under a rule moved into a new helper) and the
-                # equivalent normalised program violates a rule: report it, naming the view
-                rep1.note("violation found on the normalised view (new helpers inlined: " + "; ".join(view.inlined[:6]) + "); the view as written was undecided: " + " | ".join(first))
-                for o in rep1.obs:
-                    if not o.ok:
-                        o.msg = "[found on the normalised view: new helpers inlined] " + o.msg
-                        # view positions -> positions of the statement in the real source
-                        if o.loc and ":" in o.loc:
-                            rel, _, ln = o.loc.rpartition(":")
-                            mp = getattr(view, "line_maps", {}).get(rel)
-                            if mp and ln.isdigit() and int(ln) in mp:
-                                o.loc = f"{rel}:{mp[int(ln)]}"
                 code, rep = code1, rep1
     rep.quiet = quiet
     rep.finish(write=write, raise_undecided=False)
